@@ -175,36 +175,23 @@ func checkC07(c *Ctx, r *Report) {
 		r.Fail("C07-layout", "anchor (*lzhuf.Writer).Close not found")
 	} else {
 		where := fnName(wc)
-		var crcWrite, sizeWrite, dataCopy, sizeEnc ssa.CallInstruction
-		var lengthAlloc ssa.Value
-		isCrcCall := func(v ssa.Value) bool {
-			call, ok := v.(*ssa.Call)
-			return ok && callName(&call.Call) == "lzhuf.crc"
-		}
-		// the steps are roles (ip_g7.go): the size is ENCODED little-endian into a local scratch value
-		// (binary.Write into a bytes.Buffer, or LittleEndian.PutUint32 into a 4-byte array), and that
-		// scratch value / the compressed data are WRITTEN to the underlying writer by io.Copy, by a
-		// direct Write of their bytes, or by WriteTo
+		// the steps are roles (ip_g7.go, ip_h2.go): the size is ENCODED little-endian into a local scratch
+		// value (binary.Write into a bytes.Buffer, LittleEndian.PutUint32 into four bytes of a local array,
+		// AppendUint32), that scratch value / the compressed data are WRITTEN to the underlying writer by
+		// io.Copy, by a direct Write of their bytes or by WriteTo, and the checksum is written by
+		// binary.Write or as the two bytes PutUint16 made of it
 		recv := wc.Params[0].Name()
 		out, data, size := recv+".w", recv+".buf", recv+".fileSize"
-		for _, ci := range callsTo(wc, false, "encoding/binary.Write") {
-			a := ci.Common().Args
-			if pathOf(a[0]) == out && dependsOn(a[2], isCrcCall) {
-				crcWrite = ci
-			}
-		}
-		sizeEnc, lengthAlloc = g7SizeEncoding(wc, size)
-		for _, ci := range allCalls(wc) {
-			switch src := g7WrittenTo(ci, out); {
-			case src == nil:
-			case lengthAlloc != nil && g7BytesOf(src, lengthAlloc):
-				sizeWrite = ci
-			case pathOf(unwrap(src)) == data || g7BytesOfPath(src, data):
-				dataCopy = ci
-			}
+		L := h2CloseLayout(wc, out, data, size)
+		crcWrite, sizeWrite, dataCopy := L.crcWrite, L.sizeWrite, L.dataCopy
+		var sizeEnc ssa.CallInstruction
+		if L.size != nil {
+			sizeEnc = L.size.enc
 		}
 		o := r.Add("C07-layout", where, "order: checksum, size, data", c.pos(wc.Pos()))
 		switch {
+		case sizeWrite == nil && L.sizeClobbered:
+			o.Bad("the bytes of the encoded size can be overwritten between the encoding and the write to w.w (or the array they live in is handed to code that may modify it)")
 		case crcWrite == nil || sizeWrite == nil || dataCopy == nil || sizeEnc == nil:
 			o.Bad("could not identify the checksum write (%v), size encoding (%v), size write (%v) and data copy (%v) to w.w", crcWrite != nil, sizeEnc != nil, sizeWrite != nil, dataCopy != nil)
 		case instrReaches(sizeWrite, crcWrite) || instrReaches(dataCopy, crcWrite) || !instrReaches(crcWrite, sizeWrite):
@@ -217,26 +204,23 @@ func checkC07(c *Ctx, r *Report) {
 			o.OK("checksum write (%s) -> size write (%s) -> data copy (%s); size write dominates the data copy, checksum write cannot follow either", c.pos(crcWrite.Pos()), c.pos(sizeWrite.Pos()), c.pos(dataCopy.Pos()))
 		}
 		o = r.Add("C07-layout", where, "checksum covers size bytes and compressed data", c.pos(wc.Pos()))
-		if crcWrite == nil {
+		if crcWrite == nil || L.crcVal == nil {
 			o.Bad("checksum write not identified")
 		} else {
-			var crcCall *ssa.Call
-			dependsOn(crcWrite.Common().Args[2], func(v ssa.Value) bool {
-				if isCrcCall(v) {
-					crcCall = v.(*ssa.Call)
-					return true
-				}
-				return false
-			})
-			// the size bytes: the contents of the scratch value (Bytes() of the buffer, a slice of the
-			// array), taken after the size was encoded into it
-			hasSize := lengthAlloc != nil && sizeEnc != nil && instrDominates(sizeEnc, crcCall) &&
-				dependsOn(crcCall.Call.Args[0], func(v ssa.Value) bool { return g7BytesOf(v, lengthAlloc) })
-			hasData := dependsOn(crcCall.Call.Args[0], func(v ssa.Value) bool { return g7BytesOfPath(v, data) })
+			// the size bytes: the contents of the scratch value (Bytes() of the buffer, the same bytes of
+			// the array), taken after the size was encoded into it and before anything else is; handed
+			// to crc() together with the data, or streamed - size first - through a fresh accumulator
+			hasSize, hasData, extra := L.covers(data)
 			if hasSize && hasData {
-				o.OK("argument of crc() depends on the bytes of the encoded size (%s) and on w.buf.Bytes()", derefPath(pathOf(lengthAlloc)))
+				if callName(&L.crcVal.Call) == "lzhuf.crc" {
+					o.OK("argument of crc() depends on the bytes of the encoded size (%s) and on w.buf.Bytes()", L.size.desc)
+				} else {
+					o.OK("the checksum is the Sum() of a fresh accumulator fed the bytes of the encoded size (%s), then w.buf.Bytes(), and nothing else", L.size.desc)
+				}
+			} else if callName(&L.crcVal.Call) == "lzhuf.crc" {
+				o.Bad("argument of crc() at %s: depends on size bytes=%v, on compressed data=%v; the B2 CRC covers both%s", c.pos(L.crcVal.Pos()), hasSize, hasData, extra)
 			} else {
-				o.Bad("argument of crc() at %s: depends on size bytes=%v, on compressed data=%v; the B2 CRC covers both", c.pos(crcCall.Pos()), hasSize, hasData)
+				o.Bad("the accumulator whose Sum() is taken at %s: fed the size bytes=%v, then the compressed data=%v; the B2 CRC covers both, in that order, and nothing else%s", c.pos(L.crcVal.Pos()), hasSize, hasData, extra)
 			}
 		}
 	}
